@@ -133,13 +133,13 @@ def execute(world, init, consumes):
         studio = PlaybackStudio(cats, world.tuner, world.tr, recording_ids=rec_ids)
     else:
         lp = RecordingLookupProperties(start_date=datetime.datetime.utcnow() - datetime.timedelta(days=1),
-                                       limit=init['limit'] or None)
+                                       limit=init['limit'] or None, skip_incomplete=(init['mode'] != 'lookupall'))
         studio = PlaybackStudio(cats, world.tuner, world.tr, lookup_properties=lp)
     try:
         result = studio.play()
     except Exception as ex:  # noqa
         return ['play() raised %r' % (ex,)]
-    expect_cats = set(cats) if init['mode'] == 'lookup' else set(CATOF[r - 1] for r in init['order'])
+    expect_cats = set(cats) if init['mode'] != 'explicit' else set(CATOF[r - 1] for r in init['order'])
     if set(result) != expect_cats:
         bad.append('categories reported %s, expected %s' % (sorted(result), sorted(expect_cats)))
     if init['mode'] == 'explicit' and list(result) != sorted(result):
@@ -150,6 +150,7 @@ def execute(world, init, consumes):
                 bad.append('category %s: the tuner failed but no error is reported (%r)' % (c, result[c]))
         elif isinstance(result[c], Exception):
             bad.append('category %s reports %r although its tuning can be created' % (c, result[c]))
+    delivered = {}
     for step in consumes:
         c = step['stream']
         n0 = len(world.log)
@@ -162,15 +163,31 @@ def execute(world, init, consumes):
             bad.append('stream of category %s raised %r' % (c, ex))
             continue
         exp_id = world.ids[step['rec']]
-        if comp.recording_id != exp_id:
-            bad.append('stream %s produced recording %s, expected %s' % (c, comp.recording_id, exp_id))
-        if comp.comparator_status.equality_status.name != step.get('verdict', 'Equal'):
-            bad.append('recording %d (%s) compared %s, expected %s' % (step['rec'], CATOF[step['rec'] - 1], comp.comparator_status,
-                                                                        step.get('verdict')))
+        rec_no, exp_verdict = step['rec'], step.get('verdict', 'Equal')
+        if init['mode'] == 'explicit':
+            if comp.recording_id != exp_id:
+                bad.append('stream %s produced recording %s, expected %s' % (c, comp.recording_id, exp_id))
+        else:
+            # the order in which a lookup lists the recordings of a category (and which ones a limit keeps) is left open:
+            # every delivered recording must be one of the category's candidates, and none may be delivered twice
+            cands = dict((world.ids[k], k) for k in world.ids
+                         if CATOF[k - 1] == c and (init['mode'] == 'lookupall' or k not in INCOMPLETE))
+            if comp.recording_id not in cands:
+                bad.append('stream %s produced recording %s, which is not among the recordings a lookup of that category may '
+                           'select (%s)' % (c, comp.recording_id, sorted(cands)))
+            elif comp.recording_id in delivered.setdefault(c, set()):
+                bad.append('stream %s produced recording %s twice' % (c, comp.recording_id))
+            else:
+                delivered[c].add(comp.recording_id)
+                rec_no = cands[comp.recording_id]
+                exp_verdict = 'Different' if (CATOF[rec_no - 1] in init.get('edited', ()) or rec_no in INCOMPLETE) else 'Equal'
+        if comp.comparator_status.equality_status.name != exp_verdict:
+            bad.append('recording %d (%s) compared %s, expected %s' % (rec_no, CATOF[rec_no - 1], comp.comparator_status,
+                                                                        exp_verdict))
         used = [e for e in world.log[n0:] if e[0] in ('play', 'extract', 'compare')]
-        wrong = [e for e in used if e[1] != CATOF[step['rec'] - 1]]
+        wrong = [e for e in used if e[1] != CATOF[rec_no - 1]]
         if wrong or not [e for e in used if e[0] == 'play']:
-            bad.append('recording %d of category %s was handled with %s' % (step['rec'], CATOF[step['rec'] - 1], used))
+            bad.append('recording %d of category %s was handled with %s' % (rec_no, CATOF[rec_no - 1], used))
     for c in expect_cats & set(result):
         if not isinstance(result[c], Exception):
             extra = next(result[c], None)
